@@ -49,6 +49,9 @@ term_piece = st.one_of(
     st.builds(lambda a, b, c: f"{a}{b} * {c}", st.integers(2, 9), G.var3, G.term_text()),
     st.builds(lambda a: f"({a})^2", G.var3),
     st.builds(lambda a, b: f"{a}{b}{c}" if False else f"{a}{b}", st.integers(2, 9), st.sampled_from(["xy", "yz", "xz", "yx"])),
+    # addends the term analysis cannot decompose (several powers, non-constant exponents, factors with a sum inside,
+    # functions): their presence or position must not change the answer about the others
+    st.sampled_from(["x^2 * y^3", "(x^2)^3", "x^y", "2 * (x + 1)", "(x + 1) * 2", "sgn(x)", "3!", "x^(y + 1)", "(x + 1)^2", "2^x", "x^2 * y^3 * z", "(2x)^2", "x / (y + 1)", "-(x + 1)", "x^-y"]),
 )
 
 
